@@ -116,7 +116,7 @@ struct MCall {
 impl MapModel {
     fn value_of(&self, k: u8, id: u8) -> Vec<u8> {
         match self.sys {
-            Sys::Container => container_data(k),
+            Sys::Container | Sys::ContainerCut => container_data(k),
             _ => cache_value(id / 4, id % 4),
         }
     }
@@ -299,9 +299,9 @@ pub fn analyze(case: &Case, run: &Run) -> Analysis {
     a.preempt_sites.sort_unstable();
     let kind = |op: Op| -> &'static str {
         match (case.sys, op) {
-            (Sys::Container, Op::Get { .. }) => "read",
-            (Sys::Container, Op::Has { .. }) => "query",
-            (Sys::Container, Op::Put { .. }) => "write",
+            (Sys::Container | Sys::ContainerCut, Op::Get { .. }) => "read",
+            (Sys::Container | Sys::ContainerCut, Op::Has { .. }) => "query",
+            (Sys::Container | Sys::ContainerCut, Op::Put { .. }) => "write",
             (_, Op::PutZero { .. }) => "put",
             (_, o) => o.kind(),
         }
@@ -343,7 +343,7 @@ pub fn analyze(case: &Case, run: &Run) -> Analysis {
             a.get_hit = true;
             let put_for = |key: u8| -> Vec<Vec<u8>> {
                 match case.sys {
-                    Sys::Container => vec![container_data(key)],
+                    Sys::Container | Sys::ContainerCut => vec![container_data(key)],
                     _ => calls
                         .iter()
                         .filter(|p| matches!(p.op, Op::Put { k } | Op::PutZero { k } if k == key))
@@ -370,7 +370,21 @@ pub fn analyze(case: &Case, run: &Run) -> Analysis {
                     detail: format!("{} failed although no conflicting operation of another task overlaps it ({e}); history: {}", describe_call(c), describe_history(&calls)),
                 });
             } else {
+                // "Every operation appears to take effect at one instant": an operation that is
+                // atomic cannot see the intermediate state of another one, so on a healthy file
+                // system it cannot fail because of it either (the spurious rename errors of two
+                // racing puts are the example the property gives). The model still lets a failed
+                // writer take effect or not, so that the error is reported once, here.
                 a.error_in_race = true;
+                a.failures.push(Failure {
+                    category: format!("error-in-race:{}", c.op.kind()),
+                    detail: format!(
+                        "{} failed ({e}) while {} ran; history: {}",
+                        describe_call(c),
+                        racing.iter().map(|o| describe_call(o)).collect::<Vec<_>>().join(", "),
+                        describe_history(&calls)
+                    ),
+                });
             }
         }
     }
@@ -420,7 +434,7 @@ pub fn analyze(case: &Case, run: &Run) -> Analysis {
                 let mut wrong: Vec<String> = Vec::new();
                 if case.sys == Sys::Multi {
                     // no figures are compared for the layered cache (see System::figures)
-                } else if case.sys == Sys::Container {
+                } else if case.sys.is_container() {
                     if *entry_count != hits {
                         wrong.push(format!("entry_count() = {entry_count}"));
                     }
